@@ -1,6 +1,12 @@
 use std::path::PathBuf;
+#[cfg(not(walrus_verif))]
 use std::sync::atomic::{AtomicBool, AtomicU64, Ordering};
+#[cfg(walrus_verif)]
+use crate::wal::verif::sync::atomic::{AtomicBool, AtomicU64, Ordering};
+#[cfg(not(walrus_verif))]
 use std::time::SystemTime;
+#[cfg(walrus_verif)]
+use crate::wal::verif::time::SystemTime;
 
 // Global flag to choose backend
 pub(crate) static USE_FD_BACKEND: AtomicBool = AtomicBool::new(true);
